@@ -1342,6 +1342,10 @@ func (o *SyncMap) Copy() Object {
 
 // IndexSet implements Object interface.
 func (o *SyncMap) IndexSet(index, value Object) error {
+	// The key is converted before the lock is taken: it may be or contain
+	// this map, whose String method locks it as well.
+	index = String(index.String())
+
 	o.mu.Lock()
 	defer o.mu.Unlock()
 
@@ -1353,6 +1357,8 @@ func (o *SyncMap) IndexSet(index, value Object) error {
 
 // IndexGet implements Object interface.
 func (o *SyncMap) IndexGet(index Object) (Object, error) {
+	index = String(index.String())
+
 	o.mu.RLock()
 	defer o.mu.RUnlock()
 
@@ -1408,6 +1414,8 @@ func (o *SyncMap) Len() int {
 
 // IndexDelete tries to delete the string value of key from the map.
 func (o *SyncMap) IndexDelete(key Object) error {
+	key = String(key.String())
+
 	o.mu.Lock()
 	defer o.mu.Unlock()
 
